@@ -2,6 +2,7 @@ package work
 
 import (
 	"bytes"
+	"encoding/binary"
 	"fmt"
 	"math/bits"
 	"math/rand/v2"
@@ -65,6 +66,23 @@ func c18CheckU(c *core.Ctx, st *c18state, v uint64) {
 	rv, n := plenccore.ReadVarUint(got)
 	if rv != v || n != len(got) {
 		rec.Violation("varint-read", fmt.Sprintf("ReadVarUint(%x) = (%d,%d) want (%d,%d)", got, rv, n, v, len(got)), nil)
+	}
+	// the same value in every longer-than-necessary width up to ten bytes reads back as itself
+	if pow2 := func(x uint64) bool { return x&(x-1) == 0 }; v&0xff == 0x5a || pow2(v) || pow2(v+1) {
+		for w := len(ref) + 1; w <= 10; w++ {
+			in := append([]byte(nil), ref...)
+			in[len(in)-1] |= 0x80
+			for len(in) < w-1 {
+				in = append(in, 0x80)
+			}
+			in = append(in, 0x00)
+			want, wn := binary.Uvarint(in)
+			rv, n := plenccore.ReadVarUint(in)
+			if rv != want || n != wn {
+				rec.Violation("varint-read", fmt.Sprintf("ReadVarUint(%x) (%d written in %d bytes) = (%d,%d), encoding/binary reads (%d,%d)", in, v, w, rv, n, want, wn), nil)
+				break
+			}
+		}
 	}
 	// appended to destinations of every shape: 0-3 bytes of content, 0-11 bytes of spare capacity
 	// (none, less than the varint needs, exactly enough, more): content kept, same bytes after it
@@ -313,6 +331,9 @@ func padUvarint(r *rand.Rand, dst []byte, v uint64) []byte {
 	}
 	room := 10 - (len(refAppendUvarint(nil, v)))
 	pad := 1 + r.IntN(3)
+	if r.IntN(3) == 0 {
+		pad = room // the full ten bytes a writer reserves when it back-fills a length
+	}
 	if pad > room {
 		pad = room
 	}
